@@ -365,7 +365,7 @@ fn c14_dom<D: Dom>(cx: &RunCtx) {
     a.push("abs(".into());
     a.push("pow(".into());
     a.push(",".into());
-    tok_run::<D>(cx, "E-TOK Σ_ops∪fn x placeholder pool", a, if quick { 4 } else { 6 }, 4, if quick { 3 } else { 4 }, &k, None, 2400);
+    tok_run::<D>(cx, "E-TOK Σ_ops∪fn x placeholder pool", a, if quick { 5 } else { 6 }, 4, if quick { 3 } else { 4 }, &k, None, 2400);
 }
 
 pub fn c14(cx: &RunCtx) {
@@ -386,7 +386,7 @@ fn c20_dom<D: Dom>(cx: &RunCtx) {
     let quick = cx.tier == Tier::Quick;
     let contexts: Mutex<Vec<String>> = Mutex::new(Vec::new());
     let subs: Mutex<Vec<String>> = Mutex::new(Vec::new());
-    let sub_depth = if quick { 3 } else { 4 };
+    let sub_depth = 3;
     let collect = |c: &Ctx<D>, _st: &mut Stats, _rec: &Recorder| {
         if let Parsed::WellFormed(_) = c.parsed {
             if c.s.matches('@').count() == 1 {
@@ -405,7 +405,7 @@ fn c20_dom<D: Dom>(cx: &RunCtx) {
     if D::EV.has_percent() {
         alpha.push("%".into());
     }
-    tok_run::<D>(cx, "E-TOK Σ_juxt (collecting contexts and subexpressions)", alpha, if quick { 4 } else { 5 }, 9, ONLY_DEFAULT, &none, Some(&collect), 2400);
+    tok_run::<D>(cx, "E-TOK Σ_juxt (collecting contexts and subexpressions)", alpha, if quick { 5 } else { 6 }, 9, ONLY_DEFAULT, &none, Some(&collect), 2400);
     let mut contexts = contexts.into_inner().unwrap();
     let mut subs = subs.into_inner().unwrap();
     // structured contexts: the hole in every argument position of every function, operator and
